@@ -1,8 +1,12 @@
 #!/bin/bash
-# seed_all.sh [pattern] — run every seeded regression against its property's quick check
-cd /verif
-for d in seeded/${1:-*}; do
-  ID=$(basename $d); PROP=${ID%%-*}
-  if ! git -C /repo apply --check /verif/$d/patch.diff 2>/dev/null; then echo "$ID: PATCH DOES NOT APPLY"; continue; fi
+# seed_all.sh [pattern]   — run every seeded regression (seeded/<pattern>) against its property's quick check.
+# seed_all.sh --ids "C01-A C02-B ..."   — the same for an explicit list.
+# With SEED_REPO / SEED_VERIF set (see seedtest.sh) the loop runs in a private workspace.
+REPO=${SEED_REPO:-/repo}; VERIF=${SEED_VERIF:-/verif}
+cd $VERIF
+if [ "${1:-}" = "--ids" ]; then LIST="$2"; else LIST=$(for d in seeded/${1:-*}; do basename $d; done); fi
+for ID in $LIST; do
+  PROP=${ID%%-*}
+  if ! git -C $REPO apply --check $VERIF/seeded/$ID/patch.diff 2>/dev/null; then echo "$ID: PATCH DOES NOT APPLY"; continue; fi
   tools/seedtest.sh $ID $PROP 2>&1 | head -2 | cut -c1-260
 done
